@@ -68,8 +68,13 @@ let parse_term (s : string) (pos : int ref) : value =
 
 let is_map = function VMap _ -> true | _ -> false
 let zsign z = if z_ltb z Z0 then -1 else if z_ltb Z0 z then 1 else 0
+(* two doubles at top level are compared with Float_Cmp in the shape the source has
+   (h_float_cmp = float_cmp_of_form float_cmp_form; proved equal to the model's float_cmp) *)
+let top_cmp a b = match a, b with
+  | VFloat x, VFloat y -> Some (h_float_cmp x y)
+  | _ -> h_cmp a b
 let cmp_s a b =
-  match h_cmp a b with
+  match top_cmp a b with
   | None -> "E"
   | Some c -> let g = zsign c in
     if g <> 0 && (is_map a || is_map b) then "n" else string_of_int g
@@ -94,8 +99,12 @@ let () =
                        | None -> "-"      (* e.g. a Box assigned from a Ref: the two cannot be compared *)
                        | Some _ -> if eq0 y a && n_eqb (h_hash y) (h_hash a) then "1" else "0")
           | None -> "-" in
-        let sw = match h_swap a b with
-          | Some (x, y) -> if same x b && same y a then "1" else "0" | None -> "-" in
+        let sw = match a, b with
+          | VBlob x, VBlob y when List.length x = List.length y ->
+            (* memswap as the source has it (the plan read from its text) on the two byte images *)
+            if h_memswap x y = (y, x) then "1" else "0"
+          | _ -> (match h_swap a b with
+                  | Some (x, y) -> if same x b && same y a then "1" else "0" | None -> "-") in
         print_endline (Printf.sprintf "cmp=%s,%s ha=%s hb=%s wf=%d cp=%s as=%s sw=%s"
           (cmp_s a b) (cmp_s b a) (n_to_dec (h_hash a)) (n_to_dec (h_hash b))
           (if h_wf a && h_wf b then 1 else 0) cp asg sw)
